@@ -11,6 +11,7 @@ require (
 require (
 	github.com/gogo/protobuf v1.3.1 // indirect
 	github.com/paulmach/orb v0.1.6 // indirect
+	golang.org/x/exp v0.0.0-20191002040644-a1355ae1e2c3 // indirect
 	golang.org/x/mod v0.22.0 // indirect
 	golang.org/x/sync v0.10.0 // indirect
 )
